@@ -614,9 +614,11 @@ impl PacketReceiver for IceConn {
                                 *probation_guard = None; // drop state
                                 drop(probation_guard);
 
-                                if win_addr != current_remote {
-                                    *self.remote_addr.write() = win_addr;
-                                }
+                                // `current_remote` was read before the provisional update
+                                // above may have moved the remote to this packet's source:
+                                // commit the winner itself, not "the winner unless it
+                                // equals the stale value".
+                                *self.remote_addr.write() = win_addr;
                                 self.rtp_latched.store(true, Ordering::Relaxed);
                                 trace!(
                                     "IceConn: RTP latched to {} after probation \
